@@ -409,7 +409,9 @@ def run(model, col, tier, share=True):
               "indices come from enumerate(...) starting at 0", "argument indices do not come from a plain enumerate()", "nsl/passes/RewriteFunctionArgAccess.py", rwf)
     rwv = rw.own_method("v_VariableAccessInstruction")
     wv = [c for c in ast.walk(rwv) if isinstance(c, ast.Call) and last_attr(c) == "WithVariable"]
-    okv = bool(wv) and all("Variable" in unparse(c.args[0]) for c in wv if c.args)
+    from ..sem import local_env as _le35, rtext as _rt35
+
+    okv = bool(wv) and all("Variable" in _rt35(c.args[0], _le35(rwv, allow_impure=True)) for c in wv if c.args)
     guard = [n for n in ast.walk(rwv) if isinstance(n, ast.If) and "FUNCTION_ARGUMENT" in unparse(n.test)]
     col.check(okv and bool(guard), "R03.5", "nsl/passes/RewriteFunctionArgAccess.py::v_VariableAccessInstruction",
               "argument accesses (and only those) are re-addressed by mapping[vai.Variable]",
@@ -419,6 +421,15 @@ def run(model, col, tier, share=True):
     ordered_enum(clt, "GetArgumentTypes().items()", f"{LOWER}::_CreateLinearIRType function arguments", LOWER)
     od = [n for n in ast.walk(clt) if isinstance(n, ast.Call) and last_attr(n) in ("OrderedDict", "dict") and n.args
           and "GetArgumentTypes" in unparse(n.args[0])]
+    if not od:
+        # the same mapping filled by a loop: d = OrderedDict() / {} ; for k, t in ...items(): d[k] = ...
+        for lp_ in [n for n in ast.walk(clt) if isinstance(n, ast.For) and "GetArgumentTypes" in unparse(n.iter)]:
+            kname = lp_.target.elts[0].id if isinstance(lp_.target, ast.Tuple) and lp_.target.elts and isinstance(lp_.target.elts[0], ast.Name) else None
+            for st_ in lp_.body:
+                if isinstance(st_, ast.Assign) and isinstance(st_.targets[0], ast.Subscript) and isinstance(st_.targets[0].value, ast.Name) and unparse(st_.targets[0].slice) == kname:
+                    src_ = find_assign(clt, st_.targets[0].value.id)
+                    if src_ and all(isinstance(v_, ast.Dict) or (isinstance(v_, ast.Call) and last_attr(v_) in ("OrderedDict", "dict") and not v_.args) for v_ in src_):
+                        od = [lp_]
     col.check(bool(od), "R03.5", f"{LOWER}::_CreateLinearIRType keeps an ordered mapping", "arguments are collected into an (ordered) dict", None, LOWER, clt)
     aic = model.cls("nsl/passes/AddImplicitCasts.py", "AddImplicitCastVisitor").own_method("v_CallExpression")
     z = [n for n in ast.walk(aic) if isinstance(n, ast.Call) and dotted(n.func) == "zip"]
